@@ -149,6 +149,17 @@ void add_literal_cases(std::vector<ForkCase>& cases, Rng& rng, bool thorough)
    const int pairs = thorough ? 32 * 32 : 96;
    for (int k = 0; k < pairs; ++k) { int a = thorough ? k / 32 : int(rng.below(32)), b = thorough ? k % 32 : int(rng.below(32)); one(std::string(1, char(a)) + char(b), "literal:control-pair"); }
    for (int k = 0; k < (thorough ? 2000 : 100); ++k) { std::string s; int n = int(rng.below(12)); for (int i = 0; i < n; ++i) s += char(rng.chance(50) ? rng.below(32) : rng.below(256)); one(s, "literal:random-bytes"); }
+   // every control byte (and DEL, quote, backslash) directly followed by, and directly preceded by, a byte of every class an
+   // escaping routine might look at: octal digits, other digits, hex letters, x, backslash, quote, another control byte, end
+   {
+      const int specials[] = { 0, 1, 2, 3, 4, 5, 6, 7, 8, 9, 10, 11, 12, 13, 14, 15, 16, 17, 18, 19, 20, 21, 22, 23, 24, 25, 26, 27, 28, 29, 30, 31, 127, '"', '\\', '\'' };
+      const char followers[] = { '0', '1', '7', '8', '9', 'a', 'f', 'x', 'n', '\\', '"', ' ', 'Z' };
+      for (int c : specials) for (char f : followers) {
+         if (!thorough && rng.chance(50)) continue;
+         one(std::string(1, char(c)) + f, "literal:special-then-follower");
+         one(std::string(1, f) + char(c) + f + f, "literal:follower-special-followers");
+      }
+   }
    one("", "literal:empty");
 }
 
